@@ -13,7 +13,7 @@ LEVEL_TEXT = ("Differential testing of a filtered decoder against an unfiltered 
               "F[i] == U[i] if permitted(U[i]) else nothing, compared on full content including the attached source identity.")
 TECHNIQUE = "differential testing filtered vs unfiltered decoder over generated configurations x histories (Hypothesis)"
 RULE = ("configuration {none, exclude, include} with 0..5 entries drawn from the traffic's PGN numbers / definition ids (original, lower, "
-        "upper, swapped case), absent numbers/ids, 60928 / isoAddressClaim, duplicates x histories of 4..14 messages (frames interleaved); "
+        "upper, swapped case), absent numbers/ids, 60928 / isoAddressClaim, duplicates x histories of 4..14 messages (frames interleaved, sibling definitions and sibling twins of multi-definition PGNs); "
         "oracle per position; non-trivial = configuration with >= 2 entries or an id entry or mixed kinds on a history where at least one "
         "message is dropped and one kept; distinct = (configuration, history)")
 ASSUMPTIONS = [
